@@ -12,7 +12,9 @@ EXTENDS Term, TraceLib
 VARIABLES l, cs, st
 vars == <<l, cs, st>>
 
-NoCase == [emu |-> "none", resized |-> FALSE, dead |-> FALSE, modelled |-> FALSE, nl |-> 0, mz |-> FALSE, prevc |-> 0]
+Max3(a, b, c) == IF a >= b /\ a >= c THEN a ELSE IF b >= c THEN b ELSE c
+WidthNow(e, c0) == Max3(c0.maxw, e.tw, Max3(e.bw, e.lw, 0))
+NoCase == [emu |-> "none", resized |-> FALSE, dead |-> FALSE, modelled |-> FALSE, nl |-> 0, mz |-> FALSE, prevc |-> 0, maxw |-> 0]
 Init == l = 1 /\ cs = NoCase /\ st = InitSt(1, 1, TRUE, 0, FALSE) /\ InitRegs
 
 FixedGrid(emu) == emu = "viewdata" \/ emu = "mode7"
@@ -36,7 +38,7 @@ Next ==
   /\ LET e == Rec[l] IN
      CASE e.ev = "reset" ->
             /\ Bump(4)
-            /\ cs' = [emu |-> e.emu, resized |-> FALSE, dead |-> FALSE, modelled |-> Modelled(e.emu) /\ (~Has(e, "model") \/ e.model = 1), nl |-> IF Has(e, "nl") THEN e.nl ELSE 0, mz |-> FALSE, prevc |-> 0]
+            /\ cs' = [emu |-> e.emu, resized |-> FALSE, dead |-> FALSE, modelled |-> Modelled(e.emu) /\ (~Has(e, "model") \/ e.model = 1), nl |-> IF Has(e, "nl") THEN e.nl ELSE 0, mz |-> FALSE, prevc |-> 0, maxw |-> IF Has(e, "w") THEN e.w ELSE 0]
             /\ st' = InitStE(e.emu, e.w, e.h, e.alloc = 1, IF e.emu = "ansi" THEN e.music ELSE 0, e.emu = "ansi" /\ e.bs = 1)
        [] e.ev = "ch" ->
             /\ Bump(3)
@@ -57,11 +59,17 @@ Next ==
                \* characters and the screen height: a screenful (REP, wrapped prints) or one Avatar repeat (255 cells) per character
                /\ Check(~Has(e, "nl") \/ cs.mz \/ (e.c = 122 /\ cs.prevc = 42) \/ e.nl <= e.th + (e.i + 1) * (e.th + 256), "C03", "GrowthTotal", l,
                         [emu |-> cs.emu, c |-> e.c, i |-> e.i, nl |-> IF Has(e, "nl") THEN e.nl ELSE 0, th |-> e.th])
+               \* ... and no stored row is longer than a screen width (the widest the terminal, buffer or layer has been) per character
+               \* read so far: a row of 10^6 cells from a 30-byte input is memory "bounded by a number in the input"
+               /\ Check(~Has(e, "ll") \/ ~Has(e, "tw") \/ cs.mz \/ (e.c = 122 /\ cs.prevc = 42)
+                          \/ \A k \in 1..Len(e.ll) : e.ll[k][2] <= (e.i + 2) * (WidthNow(e, cs) + 256), "C03", "RowWidth", l,
+                        [emu |-> cs.emu, c |-> e.c, i |-> e.i, w |-> IF Has(e, "tw") THEN WidthNow(e, cs) ELSE 0,
+                         row |-> IF Has(e, "ll") /\ Len(e.ll) > 0 THEN e.ll[CHOOSE k \in 1..Len(e.ll) : \A j \in 1..Len(e.ll) : e.ll[k][2] >= e.ll[j][2]] ELSE <<>>])
                \* ---- model layer ------------------------------------------------
                /\ IF cs.modelled /\ e.r # "panic"
                   THEN WithExp(Step(st, e.c), e)
                   ELSE st' = st
-               /\ cs' = [cs EXCEPT !.resized = resizedNow, !.dead = (e.r = "panic"), !.nl = IF Has(e, "nl") THEN e.nl ELSE cs.nl, !.mz = cs.mz \/ (e.c = 122 /\ cs.prevc = 42), !.prevc = e.c]
+               /\ cs' = [cs EXCEPT !.resized = resizedNow, !.dead = (e.r = "panic"), !.nl = IF Has(e, "nl") THEN e.nl ELSE cs.nl, !.mz = cs.mz \/ (e.c = 122 /\ cs.prevc = 42), !.prevc = e.c, !.maxw = IF Has(e, "tw") THEN WidthNow(e, cs) ELSE cs.maxw]
        [] e.ev = "crash" ->
             /\ Bump(8)
             /\ Check(e.kind # "abort", "C01", "Abort", l, [emu |-> e.emu, msg |-> e.msg])
